@@ -56,3 +56,13 @@ def writer_outputs(rng, n=6):
         a = abstract_set(rng, nlang=1 if i % 3 else 2, start=4000000, max_lines=2, gap_choices=(2000000, 3000000, 5000000))
         for name, W in writers().items():
             yield name, W().write(build_set(a))
+        if i % 3 == 1:
+            # a programme whose first cue starts at instant 0 (frame 0, 00:00:00.000); not for SCC, which needs lead time
+            z = abstract_set(rng, nlang=1, start=0, max_lines=2, gap_choices=(2000000, 3000000))
+            for lang_ in z:
+                first = z[lang_][0]
+                if first[0] < first[1] - 100000:
+                    z[lang_][0] = (rng.choice([0, 0, 39999]), first[1], first[2])
+            for name, W in writers().items():
+                if name != "scc":
+                    yield name, W().write(build_set(z))
